@@ -576,7 +576,7 @@ def r_reserve_items_agree(F, R, cat=None):
 ALLOCATING = {("slice", "to_vec"), ("ToOwned", "to_owned"), ("Iterator", "collect"),
               ("Vec", "with_capacity"), ("Vec", "new"), ("Box", "new"), ("ToString", "to_string"),
               ("String", "from"), ("Vec", "from"), ("fn", "format"), ("String", "new"),
-              ("FromIterator", "from_iter"), ("Vec", "from_iter"), ("slice", "into_vec"),
+              ("FromIterator", "from_iter"), ("Vec", "from_iter"),
               ("BTreeMap", "new")}
 EXACT_FIT = {("Vec", "reserve_exact"), ("Vec", "shrink_to_fit"), ("Vec", "shrink_to"),
              ("String", "reserve_exact"), ("String", "shrink_to_fit")}
@@ -624,3 +624,34 @@ def r_noalloc(F, R, cat=None):
                     detail="%d calls inspected, none allocating a temporary or exact-fitting" % len(
                         [e for e in effs if e.kind == "call"]), nontrivial=True)
     R.floor("R-NOALLOC", "push-path bodies of non-coded regions", n, 60)
+
+
+def r_reserve_counts_elements(F, R, cat=None):
+    """a reservation computed as `items.map(f).count()` where f turns each item into an *iterator*
+    counts the items, not what they contain (`flat_map(f).count()`, or `map(|i| i.count()).sum()`,
+    counts the elements): for items that are iterators (`PushIter`) the storage is reserved for one
+    slot per item although each pushes many."""
+    from core import all_ctxs
+    from expr import nobb, apply_fn
+    n = 0
+    for b in F.methods_of_trait("ReserveItems", "reserve_items"):
+        if b.in_tests():
+            continue
+        for ctx in all_ctxs(F, b):
+            for (bi, t) in ctx.body.calls():
+                if classify(t.get("callee")) != "reserve" or len(t["args"]) < 2:
+                    continue
+                amount = nobb(trees(ctx, ctx.org.operand(t["args"][1])))
+                for nd in walk(amount):
+                    if nd[0] == "call" and nd[1] == ("Iterator", "count") and nd[2] and nd[2][0][0] == "call" and \
+                            nd[2][0][1] == ("Iterator", "map") and len(nd[2][0][2]) == 2:
+                        n += 1
+                        res = apply_fn(F, nd[2][0][2][1], [("opaque", "item")])
+                        iterish = [r for r in res if r and r[0] == "call" and r[1][1] in ("into_iter", "iter", "iter_mut", "chars", "bytes")]
+                        if iterish and len(iterish) == len(res):
+                            R.saw(b)
+                            R.check("R-RESERVE-ITEMS", b.label(), False, construct="items that are iterators are counted by their elements",
+                                    where="%s:%s" % (ctx.body.file, t["line"]),
+                                    detail="the amount is map(|item| <iterator>).count(): one per item; the matching push stores every "
+                                           "element of each item (flat_map(..).count() or a sum of the per-item counts reserves for those)")
+    R.info("R-RESERVE-ITEMS: %d map(..).count() reservation amounts inspected" % n)
